@@ -514,6 +514,8 @@ def length(ip: Interp, x, n):
         return 1
     if isinstance(x, PRec) and 'okeys' in x.f:
         return z3.Length(x.f['okeys'])
+    if S.is_record(x) and S.record_name(x.sort()) == 'AbsStr':
+        return S.rec_get(x, 'n')
     if S.is_val(x):
         ip.p.oblige('type', z3.Or(Val.is_vstr(x), Val.is_vlist(x), Val.is_vclist(x), Val.is_vtup(x)), n, 'len() of a sized value')
         return z3.If(Val.is_vstr(x), z3.Length(Val.s(x)),
@@ -625,26 +627,36 @@ def quantify(ip: Interp, g, universal: bool, n):
     if not isinstance(g, GenExp):
         ip.oos('all/any over a non-generator', n)
     node = g.node
-    if len(node.generators) != 1:
-        ip.oos('nested generator', n)
-    gen = node.generators[0]
     owner: Interp = g.interp
-    seqv = owner.ev(gen.iter)
-    k = ip.p.fresh('q', z3.IntSort())
     env = dict(owner.env)
     sub = Interp(ip.p, owner.module, env, spec=True, cls=owner.cls, fname=owner.fname + '<genexp>')
-    if isinstance(seqv, PyRange):
-        # bind the range variable itself so that array reads `a[k]` are usable triggers
-        sub.assign(gen.target, k)
-        rng = [k >= seqv.lo, k < seqv.hi]
-    else:
-        ln, getter = owner.iter_access(seqv, n)
-        sub.assign(gen.target, getter(k))
-        rng = [k >= 0, k < ln]
-    conds = [sub.truth(sub.ev(c), c) for c in gen.ifs]
+    sub.contract = owner.contract
+    ks = []
+    rng = []
+    for gen in node.generators:
+        seqv = sub.ev(gen.iter)
+        k = ip.p.fresh('q', z3.IntSort())
+        ks.append(k)
+        if isinstance(seqv, PyRange):
+            # bind the range variable itself so that array reads `a[k]` are usable triggers
+            sub.assign(gen.target, k)
+            rng += [k >= seqv.lo, k < seqv.hi]
+        else:
+            ln, getter = owner.iter_access(seqv, n)
+            sub.assign(gen.target, getter(k))
+            rng += [k >= 0, k < ln]
+        for c in gen.ifs:
+            t = sub.truth(sub.ev(c), c)
+            rng.append(t if z3.is_expr(t) else z3.BoolVal(t))
     body = sub.truth(sub.ev(node.elt), node)
-    guard = z3.And(*rng, *[c if z3.is_expr(c) else z3.BoolVal(c) for c in conds])
+    guard = z3.And(*rng)
     body = body if z3.is_expr(body) else z3.BoolVal(body)
+    if universal:
+        return z3.ForAll(ks, z3.Implies(guard, body))
+    return z3.Exists(ks, z3.And(guard, body))
+
+
+def _unused_quantify_tail(k, guard, body, universal):
     if universal:
         return z3.ForAll([k], z3.Implies(guard, body))
     return z3.Exists([k], z3.And(guard, body))
